@@ -34,6 +34,10 @@ func main() {
 	switch *prop {
 	case "C08", "C09":
 		os.Exit(runC0809(*prop, *tier))
+	case "C13":
+		os.Exit(runC13(*tier))
+	case "C12":
+		os.Exit(runC12(*tier))
 	}
 	fmt.Println("INFRA: unknown property", *prop)
 	os.Exit(2)
@@ -122,5 +126,122 @@ func runC0809(prop, tier string) int {
 		col.Sample(map[string]interface{}{"universe": u.Name, "commands": u.Cmds})
 	}
 	col.Assume = []string{"leader-side argument validation is not on this path (C11 covers it on a real server)", "log timestamps increase by 1s per BFS level"}
+	return col.Finish()
+}
+
+func runC13(tier string) int {
+	quick := tier == "quick"
+	col := ev.NewCollector("C13", tier, "exploration")
+	dl := ev.NewDeadline(ev.EnvDur("VERIF_BUDGET", map[bool]time.Duration{true: 150 * time.Second, false: 20 * time.Minute}[quick]))
+	engines := []string{"mem-skiplist", "pebble"}
+	if !quick {
+		engines = []string{"mem-skiplist", "pebble", "mem-btree", "rocksdb"}
+	}
+	var mu sync.Mutex
+	var tot storemc.ScanStats
+	exhaustive := true
+	per := map[string]interface{}{}
+	for _, eng := range engines {
+		var wg sync.WaitGroup
+		for _, p := range policies {
+			wg.Add(1)
+			go func(p pol) {
+				defer wg.Done()
+				pool := storemc.ScanPool
+				if quick && eng != "mem-skiplist" {
+					pool = pool[:6]
+				}
+				if eng == "rocksdb" {
+					pool = []string{"a", "a:", "a:b", "ab", "b", "a;"}
+				}
+				s := storemc.Open(storemc.Options{Engine: eng, Policy: p.p, DataVer: p.v, Leader: true})
+				defer s.Destroy()
+				label := eng + "/" + p.name
+				t0 := time.Now()
+				st, ok := storemc.RunScans(s, col, label, pool, !quick || eng == "mem-skiplist", dl)
+				mu.Lock()
+				tot.Chains += st.Chains
+				tot.Pages += st.Pages
+				tot.Populations += st.Populations
+				tot.NonEmptyChains += st.NonEmptyChains
+				if !ok {
+					exhaustive = false
+				}
+				per[label] = map[string]interface{}{"pool": fmt.Sprintf("%q", pool), "populations": st.Populations, "chains": st.Chains, "pages": st.Pages, "complete": ok, "wall_s": time.Since(t0).Seconds()}
+				mu.Unlock()
+				fmt.Printf("[C13] %s: populations=%d chains=%d pages=%d complete=%v %.1fs\n", label, st.Populations, st.Chains, st.Pages, ok, time.Since(t0).Seconds())
+			}(p)
+		}
+		wg.Wait()
+	}
+	col.Set("evaluations", tot.Chains)
+	col.Set("distinct_nontrivial", tot.NonEmptyChains)
+	col.Set("pages", tot.Pages)
+	col.Set("populations", tot.Populations)
+	col.Set("exhaustive", exhaustive)
+	col.Set("per_store", per)
+	col.Set("rule", "every subset of the name pool is a population (decoys in neighbouring tables, every other type, sibling collections); for SCAN/ADVSCAN per type and HSCAN/SSCAN/ZSCAN: every COUNT 1..n+1, MATCH patterns, forward from the empty cursor and reverse from an explicit upper-bound cursor, chained to the empty cursor on the real handlers; non-trivial = chains whose expected result is non-empty")
+	col.Sample(map[string]interface{}{"pool": fmt.Sprintf("%q", storemc.ScanPool), "decoy_tables": fmt.Sprintf("%q", storemc.ScanDecoyTables), "patterns": storemc.ScanPatterns})
+	col.Sample(map[string]interface{}{"chain": "advscan ns:t: HASH count 2 -> cursor c1 -> advscan ns:t:c1 HASH count 2 -> ... -> empty cursor; concatenation must equal the sorted population"})
+	col.Assume = []string{"populations are static during the iteration (the statement only constrains elements present throughout)", "node-level handlers; the cross-partition cursor merge of the server layer is exercised by C15's live server"}
+	return col.Finish()
+}
+
+func runC12(tier string) int {
+	quick := tier == "quick"
+	col := ev.NewCollector("C12", tier, "exploration")
+	dl := ev.NewDeadline(ev.EnvDur("VERIF_BUDGET", map[bool]time.Duration{true: 150 * time.Second, false: 20 * time.Minute}[quick]))
+	subLen := 2
+	if !quick {
+		subLen = 3
+	}
+	t0 := time.Now()
+	cs := storemc.RunCodec(col, subLen)
+	fmt.Printf("[C12] codec: encodings=%d collections=%d tables=%d round-trips=%d order-pairs=%d %.1fs\n", cs.Encodings, cs.Collections, cs.Tables, cs.RoundTrips, cs.OrderPairs, time.Since(t0).Seconds())
+	engines := []string{"mem-skiplist", "pebble"}
+	if !quick {
+		engines = []string{"mem-skiplist", "pebble", "mem-btree", "rocksdb"}
+	}
+	var mu sync.Mutex
+	var tot storemc.IsoStats
+	exhaustive := true
+	per := map[string]interface{}{}
+	for _, eng := range engines {
+		var wg sync.WaitGroup
+		for _, p := range policies {
+			wg.Add(1)
+			go func(p pol) {
+				defer wg.Done()
+				names := storemc.IsoNames
+				if eng == "rocksdb" {
+					names = []string{"t:a", "t:a:", "t:a:b", "t:ab", "t:a;", "ta:x", "s:a", "t:aa"}
+				}
+				s := storemc.Open(storemc.Options{Engine: eng, Policy: p.p, DataVer: p.v, Leader: true})
+				defer s.Destroy()
+				label := eng + "/" + p.name
+				t0 := time.Now()
+				st, ok := storemc.RunIsolation(s, col, label, names, dl)
+				mu.Lock()
+				tot.Pairs += st.Pairs
+				tot.Ops += st.Ops
+				tot.Changed += st.Changed
+				if !ok {
+					exhaustive = false
+				}
+				per[label] = map[string]interface{}{"ordered_pairs_checked": st.Pairs, "operations": st.Ops, "operations_that_changed_their_target": st.Changed, "complete": ok, "wall_s": time.Since(t0).Seconds()}
+				mu.Unlock()
+				fmt.Printf("[C12] %s: pairs=%d ops=%d effective=%d complete=%v %.1fs\n", label, st.Pairs, st.Ops, st.Changed, ok, time.Since(t0).Seconds())
+			}(p)
+		}
+		wg.Wait()
+	}
+	col.Set("evaluations", cs.Encodings+tot.Pairs)
+	col.Set("distinct_nontrivial", cs.Collections+tot.Changed)
+	col.Set("codec", map[string]interface{}{"encodings": cs.Encodings, "collections_with_range_check": cs.Collections, "table_ranges": cs.Tables, "round_trips": cs.RoundTrips, "memcmp_order_pairs": cs.OrderPairs})
+	col.Set("store", per)
+	col.Set("exhaustive", exhaustive)
+	col.Set("rule", "codec: every (type, table, key, sub-key) over the alphabet {00,01,':',';',ff,'a'} (tables 1-2 bytes without ':', keys 0-2, sub-keys 0-2/3 bytes, raw and versioned keys) through the real encoders: injectivity, collection range and table range contain exactly their own elements, decode(encode)=id, memcomparable codec order and round trip over all pairs of a value pool; store: every ordered pair of distinct (type,name) from an adversarial name pool x 6 operation kinds on the first: logical and physical content of the second unchanged. non-trivial = collections with a range check + operations that did change their own target")
+	col.Sample(map[string]interface{}{"alphabet": "00 01 ':' ';' ff 'a'", "store_names": fmt.Sprintf("%q", storemc.IsoNames)})
+	col.Sample(map[string]interface{}{"operation_kinds": []string{"write", "delete-element", "clear", "clear-recreate", "expire", "trim-pop-all"}})
 	return col.Finish()
 }
